@@ -101,7 +101,9 @@ def _num(x):
         if math.isinf(x):
             return {'t': 'float', 'v': 'inf' if x > 0 else '-inf'}
         # a double that is (within 1e-12 relative) a rational n/d with 32-bit n and d is reported as that rational
-        for bound in (10 ** 6, 2 * 10 ** 9):
+        # (increasing bounds: the SIMPLEST such rational - the closest fraction below a large bound can be a long
+        # approximant of the double's own rounding error instead of the short decimal the computation stands for)
+        for bound in (10 ** 6, 10 ** 7, 10 ** 8, 10 ** 9, 2 * 10 ** 9):
             fr = Fraction(x).limit_denominator(bound)
             if abs(fr.numerator) < 2 ** 31 and abs(float(fr) - x) <= 1e-12 * abs(x):
                 return {'t': 'num', 'n': fr.numerator, 'd': fr.denominator}
